@@ -7,7 +7,7 @@
    block_deletable K (the block lies before storage.maxTime = Unix 2^62, true for every real date),
    key_consistent (equal key text = equal series, C15). *)
 From Pyro Require Import Model.Base Model.Tree Model.Segment Model.Timeline Model.Storage
-  Proofs.TreeProofs Proofs.SegStruct Proofs.StorageProofs.
+  Proofs.TreeProofs Proofs.SegStruct Proofs.StorageProofs Proofs.RetentionProofs.
 Local Open Scope Z_scope.
 
 Theorem C11_get_readonly : forall rt sel f u st, fst (st_step rt st (OpGet sel f u)) = st.
@@ -66,9 +66,53 @@ Theorem C11_retention_accept : forall thr pi st, thr <= pi_from pi -> st_put (So
 Proof. exact retention_accept. Qed.
 Print Assumptions C11_retention_accept.
 
-(* Not proved here (C11_retention of DESIGN.md: after a pass at T ranges starting at/after T unchanged,
-   ranges ending at/before T empty, no range returns more than before): these need invariants of
-   s_del_node on partially cut trees; they are covered by the correspondence check only (CorrC11). *)
+(* C11_retention: a retention pass at threshold thr (Storage.DeleteDataBefore), T = unix_to_slot thr.
+   The three clauses are proved for EVERY state st satisfying the stated invariants (table sorted by key,
+   segment trees well formed, stored trees well formed with root ""); C11_retention_hyps shows that the
+   state after any history of valid ingests satisfies them.  [ab] is the query range rounded to slots.
+   Stated for series without aggregation type "average" (has_average = false); metadata is left out of
+   (a): with several matching series it is taken from the last one, which a pass may drop entirely. *)
+
+(* (a) a query whose rounded range starts at or after T returns the same tree and timeline as before *)
+Theorem C11_retention_after : forall thr sel from until st, segs_sorted (st_segs st) ->
+  let ab := s_normalize_unix (from, until) in
+  fst ab < snd ab -> unix_to_slot thr <= fst ab -> has_average (st_matching sel st) = false ->
+  option_map (fun o => (go_tree o, go_timeline o)) (st_get sel from until (st_retention thr st)) =
+  option_map (fun o => (go_tree o, go_timeline o)) (st_get sel from until st).
+Proof. exact retention_after. Qed.
+Print Assumptions C11_retention_after.
+
+(* (b) a query whose rounded range ends at or before T returns nothing *)
+Theorem C11_retention_before : forall thr sel from until st, segs_sorted (st_segs st) ->
+  (forall ks, In ks (st_segs st) -> seg_wf (snd ks)) ->
+  let ab := s_normalize_unix (from, until) in
+  fst ab < snd ab -> snd ab <= unix_to_slot thr ->
+  st_get sel from until (st_retention thr st) = None.
+Proof. exact retention_before. Qed.
+Print Assumptions C11_retention_before.
+
+(* (c) no query returns more than before, stack by stack (None counts as 0) *)
+Theorem C11_retention_le : forall thr sel from until st p, segs_sorted (st_segs st) -> TW (st_trees st) ->
+  (forall ks, In ks (st_segs st) -> seg_wf (snd ks)) ->
+  let ab := s_normalize_unix (from, until) in
+  fst ab < snd ab -> has_average (st_matching sel st) = false ->
+  (get_self p (st_get sel from until (st_retention thr st)) <= get_self p (st_get sel from until st))%N.
+Proof. exact retention_le. Qed.
+Print Assumptions C11_retention_le.
+
+(* the pass itself: which series survive, which trees are removed *)
+Theorem C11_retention_spec : forall thr st, segs_sorted (st_segs st) ->
+  st_segs (st_retention thr st) = flat_map (ret_entry thr) (st_segs st) /\
+  forall kb lv t, tree_lookup (kb, lv, t) (st_trees (st_retention thr st)) =
+                  if ret_hits thr (st_segs st) kb lv t then None else tree_lookup (kb, lv, t) (st_trees st).
+Proof. exact st_retention_spec. Qed.
+Print Assumptions C11_retention_spec.
+
+Theorem C11_retention_hyps : forall K pis, Forall (valid_put K) pis -> Forall (fun pi => inW [] (pi_tree pi)) pis ->
+  segs_sorted (st_segs (st_after pis)) /\ TW (st_trees (st_after pis)) /\
+  forall ks, In ks (st_segs (st_after pis)) -> seg_wf (snd ks).
+Proof. exact retention_hyps. Qed.
+Print Assumptions C11_retention_hyps.
 
 (* ---- non-vacuity (the D4 shape): foo gets [0,10) and [10,20) — its root bucket becomes aggregated —,
    bar one upload; Delete foo; re-ingest foo [0,10) with another stack: the old stack p;q is gone ---- *)
@@ -108,3 +152,15 @@ Example C11_retention_reject_nonvacuous :
   st_put (Some 1600000005) (ex_put ex_foo 1600000000 1600000010 [114]%N 5%N) (st_after ex_hist) = (st_after ex_hist, false) /\
   snd (st_put (Some 1600000000) (ex_put ex_foo 1600000000 1600000010 [114]%N 5%N) (st_after ex_hist)) = true.
 Proof. split; vm_compute; reflexivity. Qed.
+
+(* a pass at 1600000010 on ex_hist: foo keeps its second slot, bar is dropped *)
+Example C11_retention_nonvacuous :
+  let st := st_after ex_hist in
+  length (st_segs (st_retention 1600000010 st)) = 1%nat /\
+  st_get ex_foo 1600000000 1600000010 (st_retention 1600000010 st) = None /\
+  get_self [[112]%N; [113]%N] (st_get ex_foo 1600000010 1600000020 (st_retention 1600000010 st)) = 4%N /\
+  get_self [[112]%N; [113]%N] (st_get ex_foo 1600000000 1600000020 st) = 10%N /\
+  get_self [[112]%N; [113]%N] (st_get ex_foo 1600000000 1600000020 (st_retention 1600000010 st)) = 4%N /\
+  get_self [[112]%N; [113]%N] (st_get ex_foo 1600000000 1600000020 (st_retention 1600000020 st)) = 0%N /\
+  has_average (st_matching ex_foo st) = false.
+Proof. vm_compute. repeat split. Qed.
